@@ -19,6 +19,7 @@ import (
 	"fmt"
 	"os"
 	"path/filepath"
+	"runtime"
 	"runtime/debug"
 	"runtime/pprof"
 	"sort"
@@ -387,11 +388,6 @@ func rowsOf(rs []*gripql.QueryResult) []map[string]interface{} {
 
 const finishDeadline = 120 * time.Second
 
-// restartGrace is waited before a restart: the property speaks about jobs that
-// have completed; the instant at which a poller first sees COMPLETE is not
-// promised to be the instant at which the job is durable.
-const restartGrace = 25 * time.Millisecond
-
 func (h *handler) Handle(req map[string]interface{}) interface{} {
 	resp := map[string]interface{}{"i": req["i"]}
 	h.nbeh++
@@ -516,7 +512,9 @@ func (h *handler) step(be backend, st map[string]interface{}, jobs map[string]*j
 				o["timeout"] = true
 				break
 			}
-			if polls < 50 {
+			if polls < 200 {
+				runtime.Gosched()
+			} else if polls < 400 {
 				time.Sleep(200 * time.Microsecond)
 			} else {
 				time.Sleep(2 * time.Millisecond)
@@ -600,7 +598,7 @@ func (h *handler) step(be backend, st map[string]interface{}, jobs map[string]*j
 		}
 		o["err"] = errStr(be.Delete(j.graph, j.id))
 	case "restart":
-		time.Sleep(restartGrace)
+		// no grace period: a job that has been observed COMPLETE is a completed job
 		if err := be.Restart(); err != nil {
 			o["harness_err"] = err.Error()
 		}
